@@ -353,6 +353,14 @@ def do_check(pid, tier, seed):
         bad = ("Error: Invariant" in out) or ("is violated" in out) or ("Error: Action property" in out)
         errs = [ln for ln in out.splitlines() if ln.startswith("Error:")]
         model_runs.append({"cfg": m["cfg"], "generated": gen, "distinct": dist, "secs": round(secs, 1), "violated": bad})
+        if m.get("expect_violation"):
+            # a configuration that drops the excuse for a known-finding class: TLC is expected to find the
+            # finding on the specification itself (documents that the mirror reproduces it)
+            model_runs[-1]["expected_violation"] = m["expect_violation"]
+            model_runs[-1]["reproduced_on_specification"] = bad
+            if bad:
+                log("KNOWN-FINDING: property=%s %s reproduced on the specification by TLC (%s, %d states)" % (pid, m["expect_violation"], m["cfg"], dist))
+            continue
         if bad:
             rp = os.path.join(wd, "model-counterexample-%s.txt" % m["cfg"])
             shutil.copy(os.path.join(wd, m["cfg"] + ".log"), rp)
